@@ -3,7 +3,7 @@ use num::{Signed, ToPrimitive, Zero};
 use syntree::node::Children;
 use syntree::{Node, Span};
 
-use crate::compound::{Compound, CompoundError};
+use crate::compound::{Compound, CompoundError, MAX_POWER};
 use crate::error::{Error, ErrorKind};
 use crate::numeric::Numeric;
 use crate::query::Description;
@@ -158,8 +158,9 @@ fn pow(span: Span<u32>, base: Numeric, pow: Numeric) -> Result<Numeric> {
         return Err(Error::new(span, IllegalPowerNonInteger));
     }
 
-    let unit = match pow.value.numer().to_i32() {
-        Some(power) => base.unit.pow(power),
+    let unit = match pow.value.numer().to_i32().map(|power| base.unit.pow(power)) {
+        Some(Ok(unit)) => unit,
+        Some(Err(CompoundError)) => return Err(Error::new(span, IllegalUnitPower)),
         None => return Err(Error::new(span, IllegalPowerNonInteger)),
     };
 
@@ -252,6 +253,10 @@ pub(crate) fn unit(
                             Ok(power) => power,
                             Err(error) => return Err(Error::new(*span, BadNumber { error })),
                         };
+
+                        if power.unsigned_abs() > MAX_POWER.unsigned_abs() {
+                            return Err(Error::new(*span, IllegalUnitPower));
+                        }
 
                         compound.update_power(last, power * current);
                         continue;
